@@ -422,6 +422,47 @@ func c14Names(r *run.Run) {
 			}
 		})
 
+	r.Explore(explore.Config{Name: "C14.choose"}, "name.Tables.Choose: all non-empty subsets of 7 supported language tags (en-US, en-GB, de-DE, de-CH, fr-FR, ja-JP, pt-BR) with tables of equal or unequal size: a preference for a tag that has a table returns exactly that table, with full confidence, on every one of 4 repeated calls; an empty set of tables gives nil",
+		func(c *explore.Ctx) {
+			tags := []string{"en-US", "en-GB", "de-DE", "de-CH", "fr-FR", "ja-JP", "pt-BR"}
+			tt := name.Tables{}
+			unequal := c.Bool("tables of unequal size")
+			var present []string
+			for i, t := range tags {
+				if !c.Bool("table " + t) {
+					continue
+				}
+				tab := &name.Table{Family: "F " + t}
+				if unequal && i%2 == 1 {
+					tab.Copyright, tab.Version = "c", "v"
+				}
+				tt[t] = tab
+				present = append(present, t)
+			}
+			c.Sample(func() any { return map[string]any{"tables": present, "unequal": unequal} })
+			c.Outcome(fmt.Sprint(present), unequal)
+			if len(present) == 0 {
+				if got, _ := tt.Choose(language.English); got != nil {
+					c.Fail("C14.choose", "empty", "Choose on an empty set of tables returns %+v", got)
+				}
+				return
+			}
+			c.Nontrivial()
+			for _, t := range present {
+				for rep := 0; rep < 4; rep++ {
+					got, conf := tt.Choose(language.MustParse(t))
+					if got != tt[t] || conf != language.Exact {
+						fam := "<nil>"
+						if got != nil {
+							fam = got.Family
+						}
+						c.Fail("C14.choose", "exact tag", "Choose(%s) returns the table %q with confidence %v (call %d); tables %v", t, fam, conf, rep+1, present)
+						return
+					}
+				}
+			}
+		})
+
 	r.Explore(explore.Config{Name: "C14.utf16"}, "UTF-16 through the Windows name records: every BMP scalar (in blocks of 256) and all surrogate-pair corner combinations survive Encode/Decode and an independent UTF-16 reader",
 		func(c *explore.Ctx) {
 			var s string
